@@ -33,11 +33,11 @@ OP_RETURN = 0x6a
 
 def runs(tier, seed):
     if tier == "thorough":
-        return [Run("flt_gcs", cases=200000, params={"log_big_every": 16}, timeout=3000),
-                Run("flt_blockfilter", cases=100000, timeout=3000),
-                Run("flt_bloom", cases=300000, timeout=3000),
-                Run("flt_rbloom", cases=60000, params={"max_inserts": 20000}, timeout=3000),
-                Run("flt_pmt", cases=400000, params={"log_big_every": 16}, timeout=3000)]
+        return [Run("flt_gcs", cases=100000, params={"log_big_every": 16}, timeout=3000),
+                Run("flt_blockfilter", cases=50000, timeout=3000),
+                Run("flt_bloom", cases=150000, timeout=3000),
+                Run("flt_rbloom", cases=30000, params={"max_inserts": 20000}, timeout=3000),
+                Run("flt_pmt", cases=200000, params={"log_big_every": 16}, timeout=3000)]
     return [Run("flt_gcs", cases=5000, timeout=900),
             Run("flt_blockfilter", cases=2000, timeout=900),
             Run("flt_bloom", cases=5000, timeout=900),
